@@ -254,6 +254,17 @@ func runWith(N int, truncate, invalid bool) {
 		}
 		checkAll(e, t, "confirm")
 	}
+	if invalid {
+		// one more refused block at the end, on any stored block: on a side-branch tip it would have
+		// reorganised the chain had it been valid
+		p := vrt.Choice("last-refused-parent", len(t.nodes))
+		bad := vkit.Block([]byte(t.nodes[p].id), 77, []*pb.Transaction{vkit.Coinbase("xy", "M", []byte{7}), vkit.Coinbase("xz", "M", []byte{7})})
+		vrt.Assert(!e.L.ConfirmBlock(bad, false).Succ, "block-with-two-coinbases-refused")
+		vrt.Cover("refused-block-would-have-reorganised", t.nodes[p].height+1 > t.nodes[t.tip].height && p != t.tip)
+		t.refused = append(t.refused, bad.Blockid)
+		t.ghost = append(t.ghost, "xy", "xz")
+		checkAll(e, t, "refused-last")
+	}
 	checkPaths(e, t)
 	if truncate {
 		// truncation to any main-chain block: every stored block above the target's height goes
@@ -296,6 +307,56 @@ func VerifC04Quick()    { run(3, false) }
 func VerifC04Thorough() { run(5, false) }
 func VerifC04Truncate() { run(3, true) }
 func VerifC04Refused()  { runWith(2, false, true) }
+func VerifC04Refused3() { runWith(3, false, true) }
+
+// refusedElsewhere: g <- b1 and a second block on g or b1, then a block the ledger refuses (two coinbases)
+// on any stored block, then a valid block on any stored block - not necessarily the same one - and last a
+// block naming the refused block as its parent.  What the refused block left in memory must not leak
+// into what the later blocks write.
+func refusedElsewhere() {
+	e := vkit.NewEnv("c04", vkit.Genesis("0", "100", "50"), nil)
+	t := &tree{desc: map[string][]byte{}}
+	t.nodes = append(t.nodes, &node{id: string(e.Root.Blockid), parent: -1, height: 0, txs: []string{string(e.RootTx.Txid)}, blk: e.Root})
+	add := func(p int, i int) bool {
+		cb := vkit.Coinbase("cb"+string([]byte{byte('0' + i)}), "M", []byte{7})
+		t.desc[string(cb.Txid)] = cb.Desc
+		b := vkit.Block([]byte(t.nodes[p].id), int32(i), []*pb.Transaction{cb})
+		n := &node{id: string(b.Blockid), parent: p, height: t.nodes[p].height + 1, txs: []string{string(cb.Txid)}, order: i, blk: b}
+		st := e.L.ConfirmBlock(b, false)
+		vrt.Assert(st.Succ, "valid-block-confirmed")
+		if !st.Succ {
+			return false
+		}
+		becomesTip := n.height > t.nodes[t.tip].height
+		t.nodes = append(t.nodes, n)
+		if becomesTip {
+			t.tip = len(t.nodes) - 1
+		}
+		return true
+	}
+	if !add(0, 1) || !add(vrt.Choice("second-parent", 2), 2) {
+		return
+	}
+	checkAll(e, t, "confirm")
+	rp := vrt.Choice("refused-parent", len(t.nodes))
+	bad := vkit.Block([]byte(t.nodes[rp].id), 77, []*pb.Transaction{vkit.Coinbase("xy", "M", []byte{7}), vkit.Coinbase("xz", "M", []byte{7})})
+	vrt.Assert(!e.L.ConfirmBlock(bad, false).Succ, "block-with-two-coinbases-refused")
+	vrt.Cover("refused-block-would-have-reorganised", t.nodes[rp].height+1 > t.nodes[t.tip].height && rp != t.tip)
+	t.refused = append(t.refused, bad.Blockid)
+	t.ghost = append(t.ghost, "xy", "xz")
+	checkAll(e, t, "refused")
+	if !add(vrt.Choice("third-parent", len(t.nodes)), 3) {
+		return
+	}
+	checkAll(e, t, "confirm-after-refused")
+	orphan := vkit.Block(bad.Blockid, 78, []*pb.Transaction{vkit.Coinbase("xo", "M", []byte{7})})
+	vrt.Assert(!e.L.ConfirmBlock(orphan, false).Succ, "child-of-refused-block-refused")
+	t.refused = append(t.refused, orphan.Blockid)
+	t.ghost = append(t.ghost, "xo")
+	checkAll(e, t, "child-of-refused")
+	checkPaths(e, t)
+}
+func VerifC04RefusedElsewhere() { refusedElsewhere() }
 
 // truncateTwice: main chain g <- a1 <- a2 <- a3 and a side branch g <- b1 <- b2; two truncations in a
 // row to main-chain blocks (the second at or below the first), every query re-checked after each.
